@@ -14,9 +14,8 @@ fn draw_clock(n: usize) {
     let mut i = 0;
     while i < 4 {
         if i < n {
-            let s = any_u64();
-            let ns = any_u32();
-            assume(s < 1000 && ns < 1_000_000_000);
+            let s = any_usize_in(0, 1000) as u64;
+            let ns = any_usize_in(0, 1_000_000_000) as u32;
             unsafe { CLOCK[i] = (s, ns) };
         }
         i += 1;
@@ -72,8 +71,7 @@ fn end_local(t: LocalHistogramTimer, how: u8) -> (bool, f64) {
 #[cfg_attr(kani, kani::proof, kani::unwind(5), kani::stub(std::time::Instant::now, instant_now_stub))]
 pub fn c18_shared_one_timer() {
     draw_clock(2);
-    let how = any_u8();
-    assume(how < 4);
+    let how = any_u8_below(4);
     let h = hist1();
     let t = h.start_timer();
     assert!(h.get_sample_count() == 0, "C18 starting a timer records nothing");
@@ -93,8 +91,7 @@ pub fn c18_shared_one_timer() {
 #[cfg_attr(kani, kani::proof, kani::unwind(5), kani::stub(std::time::Instant::now, instant_now_stub))]
 pub fn c18_shared_two_timers() {
     draw_clock(4);
-    let h1 = any_u8();
-    assume(h1 < 4);
+    let h1 = any_u8_below(4);
     let h = hist1();
     let t1 = h.start_timer();
     let t2 = h.start_timer();
@@ -122,8 +119,7 @@ pub fn c18_shared_two_timers() {
 #[cfg_attr(kani, kani::proof, kani::unwind(5), kani::stub(std::time::Instant::now, instant_now_stub))]
 pub fn c18_local_timer() {
     draw_clock(2);
-    let how = any_u8();
-    assume(how < 4);
+    let how = any_u8_below(4);
     let h = hist1();
     let l = h.local();
     let t = l.start_timer();
